@@ -186,8 +186,21 @@ Definition shift_doctype (z : lx) : option sres :=
   Some (Some t, fst sh, snd sh).
 
 (* the quoted attribute value: cursor is just after the opening quote *)
-Definition quoted_value (delim : Z) (z : lx) : option lx :=
-  n <- scan_while (until delim) (suffix z) ;;
+(* the loop of the quoted value: stops at the closing quote, at a 0 byte, and inside a processing
+   instruction at "?>" (c == 0 || l.inPI && l.atTagEnd(c)): bytes moved *)
+Fixpoint scan_quoted (pi : bool) (delim : Z) (l : list Z) : option Z :=
+  match l with
+  | [] => None
+  | c :: t =>
+      if c =? delim then Some 0
+      else
+        te <- (if pi then tag_end true c t else Some false) ;;
+        if (c =? 0) || te then Some 0
+        else n <- scan_quoted pi delim t ;; Some (1 + n)
+  end.
+
+Definition quoted_value (pi : bool) (delim : Z) (z : lx) : option lx :=
+  n <- scan_quoted pi delim (suffix z) ;;
   let z1 := mkLx (norm_range (lbuf z) (lpos z) (lpos z + n)) (lpos z + n) (lstart z) in
   c <- pk z1 0 ;;
   Some (if c =? delim then mv z1 1 else z1).
@@ -208,7 +221,7 @@ Definition shift_attribute (pi : bool) (z : lx) : option (sl * sl * (Z * Z) * lx
           delim <- pk z4 0 ;;
           let attrPos := mark z4 in
           z6 <- (if (delim =? 34) || (delim =? 39)
-                 then quoted_value delim (mv z4 1)
+                 then quoted_value pi delim (mv z4 1)
                  else n4 <- scan_name pi false (suffix z4) ;; Some (mv z4 n4)) ;;
           a <- lex_sub z6 attrPos (mark z6) ;;
           Some (z6, Some a)
